@@ -19,7 +19,11 @@ package mutable
 //@ }
 //@ func cowIsMap[K, V any](x any) bool {
 //@ 	m, ok := x.(fp.UnsafeGoMap[K, V])
-//@ 	return ok && m != nil
+//@ 	return ok && m != nil && (forall q any :: verifspec.Has(m, q) ==> cowKeyTyped[K](q))
+//@ }
+//@ func cowKeyTyped[K any](q any) bool { // every key of a published map was stored as a K (Removed converts keys back with k.(K))
+//@ 	_, ok := q.(K)
+//@ 	return ok
 //@ }
 //@ func cowRely[K, V any](r *CopyOnWriteMap[K, V], o, n any) bool {
 //@ 	if verifspec.Holding(&r.lock) {
@@ -81,6 +85,46 @@ package mutable
 //@ 	cur := cowMap[K, V](verifspec.Peek(&r.value))
 //@ 	return verifspec.Has(cur, any(k)) && verifspec.Eq(verifspec.W(got), verifspec.W(cur[k]))
 //@ }
+//@ func cowIsDelete[K, V any](r *CopyOnWriteMap[K, V], o, n any, k K) bool {
+//@ 	om, nm := cowMap[K, V](o), cowMap[K, V](n)
+//@ 	return verifspec.Holding(&r.lock) && cowIsMap[K, V](n) && !verifspec.Has(nm, any(k)) && (forall q any :: !Eq(q, any(k)) ==> verifspec.Has(nm, q) == verifspec.Has(om, q) && (verifspec.Has(om, q) ==> Eq(nm[q], om[q])))
+//@ }
+//@ func cowUpdatedWith[K, V any](k K, remap func(fp.Option[V]) fp.Option[V]) bool {
+//@ 	r := &CopyOnWriteMap[K, V]{}
+//@ 	verifspec.SetRelyValue(func(o, n any) bool { return cowRely(r, o, n) })
+//@ 	verifspec.SetGuaranteeValue(func(o, n any) bool {
+//@ 		if !verifspec.Holding(&r.lock) {
+//@ 			return false
+//@ 		}
+//@ 		ov := cowMap[K, V](o).Get(k)
+//@ 		nv := remap(ov)
+//@ 		if nv.IsDefined() {
+//@ 			return cowIsUpdate(r, o, n, k, nv.Get()) // the remapped value is stored, nothing else changes
+//@ 		}
+//@ 		if ov.IsDefined() {
+//@ 			return cowIsDelete(r, o, n, k) // the key is removed, nothing else changes
+//@ 		}
+//@ 		return cowSame[K, V](o, n) // nothing to do: the same contents are published
+//@ 	})
+//@ 	verifspec.Shared(&r.value)
+//@ 	r.UpdatedWith(k, remap)
+//@ 	return verifspec.AtomicWrites() == 1 && !verifspec.Holding(&r.lock)
+//@ }
+//@ func cowInKeys[K any](q any, ks []K) bool {
+//@ 	return exists j int :: 0 <= j && j < len(ks) && Eq(q, any(ks[j]))
+//@ }
+//@ func cowIsRemoveAll[K, V any](r *CopyOnWriteMap[K, V], o, n any, ks []K) bool {
+//@ 	om, nm := cowMap[K, V](o), cowMap[K, V](n)
+//@ 	return verifspec.Holding(&r.lock) && cowIsMap[K, V](n) && (forall q any :: verifspec.Has(nm, q) == (verifspec.Has(om, q) && !cowInKeys(q, ks)) && (verifspec.Has(nm, q) ==> Eq(nm[q], om[q])))
+//@ }
+//@ func cowRemoved[K, V any](ks []K) bool {
+//@ 	r := &CopyOnWriteMap[K, V]{}
+//@ 	verifspec.SetRelyValue(func(o, n any) bool { return cowRely(r, o, n) })
+//@ 	verifspec.SetGuaranteeValue(func(o, n any) bool { return cowIsRemoveAll(r, o, n, ks) })
+//@ 	verifspec.Shared(&r.value)
+//@ 	r.Removed(ks...)
+//@ 	return verifspec.AtomicWrites() == 1 && !verifspec.Holding(&r.lock)
+//@ }
 //@ end
 //
 //@ func (*CopyOnWriteMap).Updated(r, k, v) result
@@ -108,3 +152,40 @@ package mutable
 //@ lemma cowComputeIfAbsentAtomic[K, V any](k K, f func() V)
 //@   prop C19
 //@   ensures cowComputeIfAbsent(k, f)
+//
+//@ func (*CopyOnWriteMap).UpdatedWith(r, k, remap) result
+//@   loop 0 invariant Fresh(nm) && len(nm) == verifspec.VisitedCount(om)-1 && verifspec.VisitedCount(om) <= len(om) && verifspec.Visited(om, k) && verifspec.Has(om, k) && Eq(v, om[k])
+//@   loop 0 invariant forall q any :: verifspec.Visited(om, q) && !Eq(q, k) ==> verifspec.Has(nm, q) && Eq(nm[q], om[q])
+//@   loop 0 invariant forall q any :: verifspec.Has(nm, q) ==> verifspec.Visited(om, q) && !Eq(q, k)
+//@   loop 0 invariant forall q any :: verifspec.Visited(om, q) ==> verifspec.Has(om, q)
+//@   loop 0 decreases len(om) - verifspec.VisitedCount(om)
+//@   loop 1 invariant Fresh(nm) && len(nm) == verifspec.VisitedCount(om)-1 && verifspec.VisitedCount(om) <= len(om) && verifspec.Visited(om, k) && verifspec.Has(om, k) && Eq(v, om[k])
+//@   loop 1 invariant forall q any :: verifspec.Visited(om, q) && !Eq(q, k) ==> verifspec.Has(nm, q) && Eq(nm[q], om[q])
+//@   loop 1 invariant forall q any :: verifspec.Has(nm, q) ==> verifspec.Visited(om, q) && !Eq(q, k)
+//@   loop 1 invariant forall q any :: verifspec.Visited(om, q) ==> verifspec.Has(om, q)
+//@   loop 1 decreases len(om) - verifspec.VisitedCount(om)
+//
+//@ lemma cowUpdatedWithLinearises[K, V any](k K, remap func(fp.Option[V]) fp.Option[V])
+//@   prop C19
+//@   requires forall o fp.Option[V] :: !Panics(remap(o))
+//@   ensures cowUpdatedWith(k, remap)
+//
+//@ func unsafeSet(v) ret
+//@   prop C19
+//@   ensures Fresh(ret)
+//@   ensures forall q any :: ret[q] == cowInKeys(q, v)
+//@   loop 0 invariant Fresh(ret) && 0 <= idx_ && idx_ <= len(v)
+//@   loop 0 decreases len(v) - idx_
+//@   loop 0 invariant forall q any :: ret[q] == (exists j int :: 0 <= j && j < idx_ && Eq(q, any(v[j])))
+//
+//@ func (*CopyOnWriteMap).Removed(r, k) result
+//@   loop 0 invariant Fresh(nm) && verifspec.VisitedCount(om) <= len(om) && verifspec.Visited(om, k) && verifspec.Has(om, k) && Eq(v, om[k])
+//@   loop 0 invariant forall q any :: verifspec.Visited(om, q) && !Eq(q, k) ==> verifspec.Has(nm, q) == !s[q] && (verifspec.Has(nm, q) ==> Eq(nm[q], om[q]))
+//@   loop 0 invariant forall q any :: verifspec.Has(nm, q) ==> verifspec.Visited(om, q) && !Eq(q, k)
+//@   loop 0 invariant forall q any :: verifspec.Visited(om, q) ==> verifspec.Has(om, q)
+//@   loop 0 decreases len(om) - verifspec.VisitedCount(om)
+//
+//@ lemma cowRemovedLinearises[K, V any](ks []K)
+//@   prop C19
+//@   option timeout=120
+//@   ensures cowRemoved[K, V](ks)
